@@ -30,6 +30,17 @@ def main():
         det = {"tree": head, "patch": os.path.basename(patch)}
         r = sh("git -C %s apply %s" % (REPO, patch))
         if r.returncode != 0:
+            # the lines around the change were touched by a later repair: three-way merge against the blobs the patch names
+            r = sh("git -C %s apply --3way %s" % (REPO, patch))
+            sh("git -C %s reset -q" % REPO)
+            if r.returncode != 0 or "<<<<<<<" in sh("git -C %s diff" % REPO).stdout:
+                sh("git -C %s checkout -- . && git -C %s clean -fdq" % (REPO, REPO))
+                r.returncode = 1
+            else:
+                det["patch"] += " (three-way merged)"
+                with open(os.path.join(d, "patch_head.diff"), "w") as f:
+                    f.write(sh("git -C %s diff" % REPO).stdout)
+        if r.returncode != 0:
             det["result"] = "patch does not apply on this tree"
         else:
             try:
